@@ -17,4 +17,9 @@ WSline == {<<>>} \cup Singles(NK, NV1)
 TrueConst == TRUE
 TBoth == {"state", "io"}
 TState == {"state"}
+TIO == {"io"}
+\* competing candidates of the same shape with other values (single inserts over two keys, two values per key)
+WSvals2 == {<<>>} \cup {<<W(k, FALSE, v)>> : k \in NK2, v \in NV}
+\* ... and two-key batches (an internal root with two leaf children: children are resolved by position, not by hash)
+WSpairs == {<<>>} \cup {<<W(<<97>>, FALSE, v), W(<<128>>, FALSE, w)>> : v \in NV, w \in NV}
 =============================================================================
